@@ -33,6 +33,8 @@
 // answered by the Lean driver with FAIL C10.tie-inconsistent.
 // mb-cb-joinwrite (l2_membership_join.go): a new instance registers between another
 // member's index read and its CAS-guarded write-back.
+// mb-cb-slowread (l2_membership_slow.go): the read of a live member's instance document
+// is answered late or never.
 package main
 
 import (
@@ -798,9 +800,12 @@ func runC10Cb(c *Ctx) {
 	race := os.Getenv("VERIF_C10_RACE") != ""
 	// a join between another member's index read and its CAS write-back (l2_membership_join.go)
 	joins := cbjCases(c)
+	// a live member's instance document is read late / never answered (l2_membership_slow.go)
+	slows := cbsCases(c)
 	if replayFile != "" {
 		scripts, conflicts, ties, race = cbReplayOps(replayFile)
 		joins = cbjReplayOps(replayFile)
+		slows = cbsReplayOps(replayFile)
 	}
 	type result struct {
 		obs string
@@ -843,6 +848,7 @@ func runC10Cb(c *Ctx) {
 		}(i)
 	}
 	joinRes := cbjRunAll(joins, sem, &wg)
+	slowRes := cbsRunAll(slows, sem, &wg)
 	wg.Wait()
 	for i, s := range scripts {
 		c.E.Line(fmt.Sprintf("mb-cb %s x%d", s, conflicts[i]), res[i].obs)
@@ -870,6 +876,7 @@ func runC10Cb(c *Ctx) {
 		c.E.EndCase(true, tag)
 	}
 	cbjEmit(c, joins, joinRes)
+	cbsEmit(c, slows, slowRes)
 	if race {
 		// opt-in replay of the registration race (VERIF_C10_RACE=1 or a replay file naming it)
 		c.E.Line("mb-cb-race", cbRunRace())
